@@ -105,7 +105,9 @@ def _case(draw, kind):
                 # a transient fault INSIDE the judged call, of a type the integrators answer with a second attempt of the step
                 # (ValueError / LinAlgError): if the call returns, what it returns is judged like any other step
                 swallowed_fault=draw(st.sampled_from([None, None, None, None, 1, 2, 3, 4, 6, 9])), swallowed_kind=draw(st.sampled_from(["ValueError", "LinAlgError"])),
-                jump_mode=draw(st.sampled_from(["full", "full", "state_one_component", "state_one_component", "state_all_components", "time_only"])),
+                # ("repeat_start": the next call starts again from the very (t, y) the previous call started from - a step retaken
+                #  with another step size or, through `ks`, with other constants in the same dict)
+                jump_mode=draw(st.sampled_from(["full", "full", "state_one_component", "state_one_component", "state_all_components", "time_only", "repeat_start", "repeat_start"])),
                 jump_index=draw(st.integers(0, 5)),
                 jump=[draw(st.booleans()) for _ in range(2)], jump_y=draw(PR.state(rhs["shape"])), jump_t=draw(st.sampled_from([0.5, -1.25, 7.0])))
 
@@ -420,6 +422,9 @@ def check(case):
                 # same time, the state edited in ONE component only (an event handler resetting a position, a Jacobian probe)
                 y = y.copy()
                 y.reshape(-1)[case.get("jump_index", 0) % y.size] += dt(0.375)
+            elif mode == "repeat_start":
+                y = y_in.copy()
+                t = dt(t_in)
             elif mode == "state_all_components":
                 y = (y + np.asarray(case["jump_y"], dtype=dt).reshape(shape) + dt(0.125)).astype(dt)
             else:       # "time_only"
